@@ -1,6 +1,7 @@
 import NibabelModel.Model.C17
 import NibabelModel.Lemmas.C17
 import NibabelModel.Generated.C17Codes
+import NibabelModel.Lemmas.C17_Writer
 /-! Props/C17 — property theorems for C17 "GIFTI images round-trip through XML for every encoding".
 
     Proved for ALL lists / event streams / shapes (no bound):
@@ -9,9 +10,9 @@ import NibabelModel.Generated.C17Codes
                     original defect: orig_remove_skips_adjacent, removeByIntentOrig_counterexample,
                     orig_loop_characterisation, orig_correct_iff_no_adjacent
       parser      : chunking_independent, rechunk_text_node
-      data block  : elem_roundtrip, buffer_roundtrip, order_roundtrip, data_block_roundtrip, codes_pinned,
-                    data_block_roundtrip_gifti (instantiated for the regenerated tables),
-                    data_block_roundtrip_any_memory_order, writer_bytes_memory_order_independent
+      data block  : elem_roundtrip, buffer_roundtrip, order_roundtrip, base64_block_roundtrip, codes_pinned,
+                    base64_block_roundtrip_gifti (instantiated for the regenerated tables),
+                    base64_block_roundtrip_any_memory_order, writer_bytes_memory_order_independent
 
     PARTIAL (external, enter as hypotheses/parameters, checked only by the oracle on the real code):
       expat / ElementTree (escaping, which handler calls are made), base64, zlib, ASCII number printing/parsing. -/
@@ -236,10 +237,10 @@ example : ∃ (X : Ext) (b64enc : List Nat → Text) (deflate : List Nat → Lis
   have hv : x.isValidChar := Or.inl (by have := hb x hx; omega)
   simp [Char.ofNat, hv, Char.toNat, Char.ofNatAux]
 
-/-- `data_block_roundtrip`: for B64BIN and B64GZ × {little, big endian} × {row, column major} × every data type of
+/-- `base64_block_roundtrip`: for B64BIN and B64GZ × {little, big endian} × {row, column major} × every data type of
     the table × every shape × all bit patterns: `read_data_block` applied to what `_data_tag_element` wrote (with
     the same declared attributes) returns the array — same data type, shape, and bits. -/
-theorem data_block_roundtrip (K : Codes) (hK : K.Distinct) (X : Ext) (b64enc : List Nat → Text)
+theorem base64_block_roundtrip (K : Codes) (hK : K.Distinct) (X : Ext) (b64enc : List Nat → Text)
     (deflate : List Nat → List Nat) (hX : CodecContract X b64enc deflate)
     (gz big col : Bool) (dt w : Nat) (kind : Char)
     (hdt : K.dtinfo.find? (fun r => r.1 == dt) = some (dt, w, kind)) (hw : 0 < w)
@@ -283,7 +284,7 @@ theorem data_block_roundtrip (K : Codes) (hK : K.Distinct) (X : Ext) (b64enc : L
     from a document that declared the other endianness, user-supplied non-native data): for every memory order
     `memBig`, writing the memory image of `elems` and reading it back (declared order = machine order `big`)
     returns `elems`. -/
-theorem data_block_roundtrip_any_memory_order (K : Codes) (hK : K.Distinct) (X : Ext) (b64enc : List Nat → Text)
+theorem base64_block_roundtrip_any_memory_order (K : Codes) (hK : K.Distinct) (X : Ext) (b64enc : List Nat → Text)
     (deflate : List Nat → List Nat) (hX : CodecContract X b64enc deflate)
     (gz big col memBig : Bool) (dt w : Nat) (kind : Char)
     (hdt : K.dtinfo.find? (fun r => r.1 == dt) = some (dt, w, kind)) (hw : 0 < w)
@@ -294,7 +295,7 @@ theorem data_block_roundtrip_any_memory_order (K : Codes) (hK : K.Distinct) (X :
          if col then K.ordCol else K.ordRow⟩ (some txt) = .ok ⟨dt, shape, elems⟩ := by
   refine ⟨writeDataBlock b64enc deflate gz big w col shape elems, ?_, ?_⟩
   · simp [writeDataBlockMem, fromBuffer_toBytes memBig w hw elems hr]
-  · exact data_block_roundtrip K hK X b64enc deflate hX gz big col dt w kind hdt hw shape elems hlen hr
+  · exact base64_block_roundtrip K hK X b64enc deflate hX gz big col dt w kind hdt hw shape elems hlen hr
 
 /-- … and the bytes written are the same whatever the memory order (so a big-endian array in memory is NOT
     written raw under the machine's declared order) -/
@@ -323,10 +324,10 @@ theorem codes_pinned :
     lookup Gen.codes.order "ColumnMajorOrder".toList = some Gen.codes.ordCol := by
   refine ⟨⟨?_, ?_, ?_, ?_, ?_, ?_, ?_⟩, ?_, ?_, ?_, ?_, ?_, ?_, ?_, ?_, ?_⟩ <;> decide
 
-/-- `data_block_roundtrip` instantiated for the REGENERATED code tables and the three data types the GIFTI
+/-- `base64_block_roundtrip` instantiated for the REGENERATED code tables and the three data types the GIFTI
     standard allows (uint8, int32, float32): every hypothesis about the tables is discharged by computation
     on `Gen.codes`, so a change of a code or an item size in the source re-checks (or breaks) this theorem. -/
-theorem data_block_roundtrip_gifti (X : Ext) (b64enc : List Nat → Text) (deflate : List Nat → List Nat)
+theorem base64_block_roundtrip_gifti (X : Ext) (b64enc : List Nat → Text) (deflate : List Nat → List Nat)
     (hX : CodecContract X b64enc deflate) (gz big col : Bool) (dt w : Nat) (kind : Char)
     (hdt : (dt, w, kind) ∈ [(2, 1, 'u'), (8, 4, 'i'), (16, 4, 'f')])
     (shape elems : List Nat) (hlen : elems.length = prod shape) (hr : ∀ v ∈ elems, v < 256 ^ w) :
@@ -336,14 +337,14 @@ theorem data_block_roundtrip_gifti (X : Ext) (b64enc : List Nat → Text) (defla
       (some (writeDataBlock b64enc deflate gz big w col shape elems)) = .ok ⟨dt, shape, elems⟩ := by
   simp only [List.mem_cons, Prod.mk.injEq, List.not_mem_nil, or_false] at hdt
   rcases hdt with ⟨rfl, rfl, rfl⟩ | ⟨rfl, rfl, rfl⟩ | ⟨rfl, rfl, rfl⟩
-  · exact data_block_roundtrip Gen.codes codes_pinned.1 X b64enc deflate hX gz big col 2 1 'u' (by decide) (by decide)
+  · exact base64_block_roundtrip Gen.codes codes_pinned.1 X b64enc deflate hX gz big col 2 1 'u' (by decide) (by decide)
       shape elems hlen hr
-  · exact data_block_roundtrip Gen.codes codes_pinned.1 X b64enc deflate hX gz big col 8 4 'i' (by decide) (by decide)
+  · exact base64_block_roundtrip Gen.codes codes_pinned.1 X b64enc deflate hX gz big col 8 4 'i' (by decide) (by decide)
       shape elems hlen hr
-  · exact data_block_roundtrip Gen.codes codes_pinned.1 X b64enc deflate hX gz big col 16 4 'f' (by decide) (by decide)
+  · exact base64_block_roundtrip Gen.codes codes_pinned.1 X b64enc deflate hX gz big col 16 4 'f' (by decide) (by decide)
       shape elems hlen hr
 
-/-- non-vacuity of `data_block_roundtrip`: the regenerated tables, a concrete codec pair satisfying the contract
+/-- non-vacuity of `base64_block_roundtrip`: the regenerated tables, a concrete codec pair satisfying the contract
     (bytes ↔ characters, identity "compression"), a 2×3 int32 array with extreme bit patterns, column-major,
     big-endian, gzip branch -/
 example :
@@ -352,5 +353,149 @@ example :
       (some (writeDataBlock (fun b => b.map Char.ofNat) id true true 4 true [2, 3]
         [0, 1, 4294967295, 2147483648, 5, 6])) = .ok ⟨8, [2, 3], [0, 1, 4294967295, 2147483648, 5, 6]⟩ := by
   rfl
+
+
+/-! ## intent ARGUMENTS of the container methods (`intent_codes.code[intent]`) -/
+
+/-- REGENERATED tables: every integer intent code — 0 = NIFTI_INTENT_NONE, the default intent of `GiftiDataArray`,
+    included — resolves to itself, and the name the writer emits for it resolves (as a string argument and as an
+    XML attribute) back to the code.  Complete check of the generated table, not a sample. -/
+theorem intent_forms_agree : ∀ c ∈ Gen.codes.intentCodes,
+    lookup Gen.codes.intent (nameOf Gen.names.intent c) = some c ∧ resolveIntent Gen.codes (.code c) = some c ∧
+    resolveIntent Gen.codes (.name (nameOf Gen.names.intent c)) = some c := by
+  decide +kernel
+
+/-- the standard names the harness passes (typed there independently of nibabel) are aliases of the standard codes
+    in the regenerated table; 0 is an intent code; `GiftiDataArray()` defaults to it -/
+theorem intent_aliases_pinned :
+    ([("NIFTI_INTENT_NONE", 0), ("none", 0), ("NIFTI_INTENT_LABEL", 1002), ("label", 1002),
+      ("NIFTI_INTENT_POINTSET", 1008), ("pointset", 1008), ("NIFTI_INTENT_TRIANGLE", 1009), ("triangle", 1009),
+      ("NIFTI_INTENT_TIME_SERIES", 2001), ("time series", 2001), ("NIFTI_INTENT_SHAPE", 2005), ("shape", 2005)].all
+        (fun p => resolveIntent Gen.codes (.name p.1.toList) == some p.2 && resolveIntent Gen.codes (.code p.2) == some p.2)) = true ∧
+    Gen.codes.daDefaults.1 = 0 ∧ newArray Gen.codes 7 none = some ⟨7, 0⟩ := by
+  decide +kernel
+
+/-- (glue: unfolds the definitions once the lookup is known) the three intent-taking methods act on the arrays of
+    the code the argument resolves to — whatever its form and whatever the code, 0 included — and only `None`
+    makes `agg_data` take all arrays; an argument that does not resolve raises and leaves the image as it was. -/
+theorem intent_arg_methods (K : Codes) (l : List DA) (a : IntentArg) :
+    (∀ c, resolveIntent K a = some c →
+      removeByIntentArg K l a = .ok (removeByIntent l c) ∧
+      getArraysFromIntentArg K l a = .ok (getArraysFromIntent l c) ∧
+      aggData K l (some a) = .ok (aggOf K.timeSeries (getArraysFromIntent l c))) ∧
+    (resolveIntent K a = none →
+      removeByIntentArg K l a = .error .other ∧ getArraysFromIntentArg K l a = .error .other ∧
+      aggData K l (some a) = .error .other) ∧
+    aggData K l none = .ok (aggOf K.timeSeries l) := by
+  refine ⟨fun c h => ?_, fun h => ?_, rfl⟩ <;>
+  simp_all [resolveIntent, removeByIntentArg, removeByIntentArgIn, getArraysFromIntentArg, getArraysFromIntentArgIn,
+    aggData, aggDataIn, aggOne, aggSel]
+
+/-- the seeded-bug clause: with the regenerated tables, `agg_data(0)` aggregates exactly the arrays of intent 0 —
+    on an image that also holds another intent this is NOT what `agg_data()` returns -/
+theorem agg_code_zero_filters (l : List DA) :
+    aggData Gen.codes l (some (.code 0)) = .ok (aggOf Gen.codes.timeSeries (l.filter (fun d => d.intent == 0))) ∧
+    ((∃ d ∈ l, d.intent ≠ 0) → ∀ r, aggData Gen.codes l (some (.code 0)) = .ok r → r.ids ≠ l.map (·.id)) := by
+  have h0 : resolveIntent Gen.codes (.code 0) = some 0 := by decide +kernel
+  have h1 := ((intent_arg_methods Gen.codes l (.code 0)).1 0 h0).2.2
+  refine ⟨h1, ?_⟩
+  rintro ⟨d, hd, hne⟩ r hr
+  rw [h1] at hr
+  cases hr
+  have hids := (agg_selects_filter Gen.codes.timeSeries l (some 0)).1
+  simp only [aggOne, aggSel] at hids
+  rw [hids]
+  intro e
+  have hl := congrArg List.length e
+  simp only [List.length_map] at hl
+  have hlt : (getArraysFromIntent l 0).length < l.length := by
+    have := (remove_by_intent_spec l 0).2
+    have hm : d ∈ removeByIntent l 0 := ((remove_by_intent_spec l 0).1 d).2 ⟨hd, hne⟩
+    have : 0 < (removeByIntent l 0).length := List.length_pos_of_mem hm
+    omega
+  omega
+
+example : aggData Gen.codes [⟨0, 1008⟩, ⟨1, 0⟩] (some (.code 0)) = .ok (.single 1) := by rfl
+
+/-- `agg_data((a₁,…,aₖ))`: one result per element in the order asked; a `None` element stands for all arrays, any
+    other element is looked up like a single argument (so `0` selects intent 0) -/
+theorem agg_tuple_args (K : Codes) (l : List DA) (as : List (Option IntentArg))
+    (h : ∀ a ∈ as, ∀ x, a = some x → (resolveIntent K x).isSome) :
+    aggDataTuple K l as = .ok (as.map (fun a => aggOne K.timeSeries l (a.bind (resolveIntent K)))) :=
+  aggDataTupleIn_ok K.intent K.intentCodes K.timeSeries l as h
+
+example : aggDataTuple Gen.codes [⟨0, 2005⟩, ⟨1, 0⟩, ⟨2, 0⟩] [some (.code 2005), none, some (.code 0)]
+    = .ok [.single 0, .tuple [0, 1, 2], .tuple [1, 2]] := by rfl
+
+
+
+/-! ## whole image: writer → handler calls → parser -/
+
+/-- `image_xml_roundtrip`: parsing what the writer wrote gives back the image — version, global metadata, label
+    table (keys, texts, colour attributes), and the data arrays IN ORDER, each with its intent, data type, index
+    order, encoding, declared byte order, dims, external-file fields, metadata and coordinate system — for every
+    image, every code table and every handler-call sequence `es` that differs from the writer's element tree
+    `imgEvents N w` only in how character data is chunked (any parser buffer size).
+    CONTRACT (external, stated in Model/C17 `imgEvents`): ElementTree serialisation followed by expat parsing
+    delivers the element tree in document order (escaping and UTF-8 coding are inverse).
+    Per-array EXTERNAL results enter through `ext`: `vals` = what `np.loadtxt` makes of the '%10.6f' matrix text and
+    `arr` = what `read_data_block` makes of the data text (`WDArr.Ok.mt`, `.data`; the latter is a THEOREM for the
+    Base64 encodings, see `image_data_base64`).  Hypotheses `WImg.Ok`: metadata are dicts of texts without leading /
+    trailing white space (the parser strips by design), label texts likewise, codes are in the tables. -/
+theorem image_xml_roundtrip (K : Codes) (X : Ext) (N : WNames) (w : WImg) (ext : List (List (List Nat) × Arr))
+    (h : w.Ok K N X ext) (es : List Event) (hes : canon es = canon (imgEvents N w)) :
+    run K X es = .ok (some (w.parsed ext)) := by
+  rw [chunking_independent K X es (imgEvents N w) hes]
+  exact run_imgEvents K X N w ext h
+
+/-- the data hypothesis of `image_xml_roundtrip` is a theorem for the Base64 encodings (codec contract
+    decode ∘ encode = id): an array written by `writeDataBlock` with a non-empty payload reads back bit-exactly.
+    (Empty payload = zero-size array with Base64Binary: the open finding `b64bin:zero-size-none-data`.) -/
+theorem image_data_base64 (X : Ext) (b64enc : List Nat → Text) (deflate : List Nat → List Nat)
+    (hX : CodecContract X b64enc deflate) (gz big col : Bool) (dt w : Nat) (kind : Char)
+    (hdt : (dt, w, kind) ∈ [(2, 1, 'u'), (8, 4, 'i'), (16, 4, 'f')])
+    (elems : List Nat) (d : WDArr) (hlen : elems.length = prod d.dims) (hr : ∀ v ∈ elems, v < 256 ^ w)
+    (he : d.encoding = if gz then Gen.codes.encGz else Gen.codes.encB64)
+    (hen : d.endian = if big then Gen.codes.endBig else Gen.codes.endLittle) (hd : d.datatype = dt)
+    (ho : d.indOrd = if col then Gen.codes.ordCol else Gen.codes.ordRow)
+    (ht : d.dataText = writeDataBlock b64enc deflate gz big w col d.dims elems) (hne : d.dataText ≠ []) :
+    readDataBlock Gen.codes X ⟨d.encoding, d.endian, d.datatype, d.dims, d.indOrd⟩
+      (if d.dataText.isEmpty then none else some d.dataText) = .ok ⟨dt, d.dims, elems⟩ := by
+  have : d.dataText.isEmpty = false := by simpa using hne
+  rw [this, he, hen, hd, ho, ht]
+  exact base64_block_roundtrip_gifti X b64enc deflate hX gz big col dt w kind hdt d.dims elems hlen hr
+
+/-- REGENERATED tables: what the writer emits for the GIFTI data types, index orders, in-line encodings, byte
+    orders and every xform code is an alias the parser maps back to the same code -/
+theorem writer_names_parse_back :
+    (∀ c ∈ Gen.giftiDtypes, lookup Gen.codes.dtype (nameOf Gen.names.dtype c) = some c) ∧
+    (∀ c ∈ [Gen.codes.ordRow, Gen.codes.ordCol], lookup Gen.codes.order (nameOf Gen.names.order c) = some c) ∧
+    (∀ c ∈ [Gen.codes.encAscii, Gen.codes.encB64, Gen.codes.encGz],
+        lookup Gen.codes.encoding (nameOf Gen.names.encoding c) = some c) ∧
+    (∀ c ∈ [Gen.codes.endBig, Gen.codes.endLittle], lookup Gen.codes.endian (nameOf Gen.names.endian c) = some c) ∧
+    (∀ c ∈ Gen.names.xform.map (·.1), nameOf Gen.names.xform c ≠ [] ∧
+        lookup Gen.codes.xform (strip (nameOf Gen.names.xform c)) = some c) := by
+  decide +kernel
+
+/-- `image_xml_roundtrip` over the REGENERATED tables: the table hypotheses are discharged by computation
+    (`intent_forms_agree`, `writer_names_parse_back`); what remains are conditions on the image itself and the two
+    external per-array results. -/
+theorem image_xml_roundtrip_gifti (X : Ext) (w : WImg) (ext : List (List (List Nat) × Arr))
+    (hm : w.gmeta.Stripped) (hk : (w.gmeta.map (·.1)).Nodup) (hl : ∀ l ∈ w.labels, strip l.label = l.label)
+    (hlen : ext.length = w.darrays.length)
+    (ha : ∀ t ∈ w.darrays.zip ext,
+      t.1.InTables Gen.codes Gen.names Gen.giftiDtypes ∧ t.1.dmeta.Stripped ∧ (t.1.dmeta.map (·.1)).Nodup ∧
+      t.1.coordsys.matrixText ≠ [] ∧ parseMatrix X t.1.coordsys.matrixText = some t.2.1 ∧
+      readDataBlock Gen.codes X ⟨t.1.encoding, t.1.endian, t.1.datatype, t.1.dims, t.1.indOrd⟩
+        (if t.1.dataText.isEmpty then none else some t.1.dataText) = .ok t.2.2)
+    (es : List Event) (hes : canon es = canon (imgEvents Gen.names w)) :
+    run Gen.codes X es = .ok (some (w.parsed ext)) := by
+  refine image_xml_roundtrip Gen.codes X Gen.names w ext ⟨hm, hk, hl, hlen, fun t ht => ?_⟩ es hes
+  obtain ⟨hT, hs, hn, hne, hmt, hdata⟩ := ha t ht
+  obtain ⟨n1, n2, n3, n4, n5⟩ := writer_names_parse_back
+  exact ⟨⟨(intent_forms_agree _ hT.intent).1, n1 _ hT.dtype, n2 _ hT.order, n3 _ hT.encoding, n4 _ hT.endian⟩,
+    hs, hn, (n5 _ hT.ds).1, (n5 _ hT.ds).2, (n5 _ hT.xs).1, (n5 _ hT.xs).2, hne, hmt, hdata⟩
+
+
 
 end Nb.C17
